@@ -278,6 +278,9 @@ func (server *Server) readRequestHeader(ctx *Context) (err error) {
 	if err == nil && len(ctx.Upgrade) > 0 {
 		ctx.upgrade.Unmarshal(ctx.Upgrade)
 		ctx.Upgrade = nil
+		if !ctx.upgrade.valid() {
+			err = errors.New("invalid upgrade flags")
+		}
 	}
 	return err
 }
